@@ -51,13 +51,17 @@ def packet_obs():
         encodes=["lop_parity_check", "vbi_par8", "vbi_unpar8"], bounds="3 enhancement triplets, one received row (enumerated: 1..25 thorough; 5, 24 quick)",
         grid=[dict(ROWSEL=r) for r in range(1, 26)], quick_grid=[dict(ROWSEL=5), dict(ROWSEL=24)], timeout=600, mem_gb=4, **PK)
     MG = [dict(MAGN=m) for m in range(8)]
-    G28 = [dict(MAGN=m, DESSEL=d, PK2829=k) for m in (0, 3) for d in (0, 1, 2, 3, 4, 5) for k in (28, 29)]
+    G28 = [dict(MAGN=1, DESSEL=d, PK2829=k) for d in (0, 1, 2, 3, 4, 5) for k in (28, 29)]
+    # NOT REGISTERED by C01/C03 (kept for reference): parse_28_29 gave no verdict - default field sensitivity: 6.9 M steps / 555 s symex (writes to a
+    # non-representative member of the 4.4 KB cache_page union are lowered to byte updates over ~4000 scalars); array-size 8 or nafs: 37 GB / 16 GB
+    # in SSA->SAT conversion even with the network object cut to a 3.5 KB prefix.
     o["x2829"] = Ob("parse_28_29", func="h_2829", unwind=50, vin_size=1024, reach=["end", "clean"],
         desc="parse_28_29 on an arbitrary row for X/28 and M/29, arbitrary page function, arbitrary page/magazine extension: no access outside (bit stream reader, colour map, "
-             "DRCS CLUT, mode[48]); a single bit error in a clean byte/triplet => same result, same page state, same page and magazine extension",
-        encodes=["parse_28_29", "get_bits", "vbi_unham24p"], bounds="none within one packet; magazine (1 of 2), designation code 0..5 and packet 28/29 enumerated by the runner",
-        grid=G28, quick_grid=[dict(MAGN=3, DESSEL=0, PK2829=28), dict(MAGN=3, DESSEL=1, PK2829=29), dict(MAGN=0, DESSEL=3, PK2829=28), dict(MAGN=0, DESSEL=4, PK2829=29)],
-        timeout=900, mem_gb=8, **PK)
+             "DRCS CLUT, mode[48]); of the network object only the magazine's default extension changes (single-error invariance of X/28 was built and dropped: two runs over the page union cost 37 GB)",
+        encodes=["parse_28_29", "get_bits", "vbi_unham24p"], bounds="none within one packet; magazine 1 (network object cut to its prefix), designation code 0..5 and packet 28/29 enumerated by the runner",
+        grid=G28, quick_grid=[dict(MAGN=1, DESSEL=0, PK2829=28), dict(MAGN=1, DESSEL=1, PK2829=29), dict(MAGN=1, DESSEL=3, PK2829=28), dict(MAGN=1, DESSEL=4, PK2829=29)],
+        flags=["--no-undefined-shift-check", "--max-field-sensitivity-array-size", "8"],
+        timeout=900, mem_gb=8, **{k: v for k, v in PK.items() if k != "flags"})
     o["btt"] = Ob("parse_btt", func="h_btt", unwind=50, vin_size=128,
         desc="parse_btt on an arbitrary row, every packet number: all accesses inside the network object (page statistics 0x100..0x8FF, BTT link table), links in range",
         encodes=["parse_btt", "unham_top_page_link", "cache_network_page_stat"], bounds="none within one packet; packet number enumerated",
